@@ -4,6 +4,7 @@ package props
 
 import (
 	"bytes"
+	"errors"
 	"fmt"
 	"io"
 	"path"
@@ -16,13 +17,14 @@ import (
 // starting with "/" is rooted, anything else is resolved against the
 // directory of the referring template (like the stock loaders do).
 type memLoader struct {
-	mu     sync.Mutex
-	files  map[string]string
-	gets   []string       // ordered log of Get(path) calls
-	hits   map[string]int // successful fetches per path
-	misses map[string]int
-	failOn map[string]bool // names that are temporarily unloadable
-	delay  time.Duration   // widens race windows in concurrent batches (never an oracle)
+	mu       sync.Mutex
+	files    map[string]string
+	gets     []string       // ordered log of Get(path) calls
+	hits     map[string]int // successful fetches per path
+	misses   map[string]int
+	failRead map[string]bool
+	failOn   map[string]bool // names that are temporarily unloadable
+	delay    time.Duration   // widens race windows in concurrent batches (never an oracle)
 }
 
 func newMemLoader(files map[string]string) *memLoader {
@@ -62,7 +64,25 @@ func (l *memLoader) Get(p string) (io.Reader, error) {
 		return nil, fmt.Errorf("memLoader: %s not found", p)
 	}
 	l.hits[p]++
+	if l.failRead[p] {
+		// the loader has the name, but reading it breaks half way
+		half := []byte(s)[:len(s)/2]
+		return io.MultiReader(bytes.NewReader(half), errReader{}), nil
+	}
 	return bytes.NewReader([]byte(s)), nil
+}
+
+type errReader struct{}
+
+func (errReader) Read([]byte) (int, error) { return 0, errors.New("memLoader: read error (injected)") }
+
+func (l *memLoader) setFailRead(name string) {
+	l.mu.Lock()
+	if l.failRead == nil {
+		l.failRead = map[string]bool{}
+	}
+	l.failRead[name] = true
+	l.mu.Unlock()
 }
 
 func (l *memLoader) getDelay() time.Duration {
